@@ -400,3 +400,45 @@ func scanOutputs(o E2EOut, needles []string) string {
 	}
 	return ""
 }
+
+func variantNames(vs []reproVariant) []string {
+	var out []string
+	for _, v := range vs {
+		out = append(out, v.Name)
+	}
+	return out
+}
+
+// reproDimsDesc: the repositories (which (name, version) pairs are offered twice) and the base image of a case
+func reproDimsDesc(c *reproCase) string {
+	var b strings.Builder
+	if len(c.Mirrors) > 0 {
+		kind := "file"
+		if len(c.Variants) > 0 && c.Variants[0].HTTP {
+			kind = "http"
+		}
+		fmt.Fprintf(&b, "%d %s repositories: %s", 1+len(c.Mirrors), kind, reproPrimaryName)
+		have := map[string]bool{}
+		for _, p := range c.Img.Pkgs {
+			have[p.Name+"-"+p.Version] = true
+		}
+		for _, m := range c.Mirrors {
+			var twice []string
+			for _, p := range m.Pkgs {
+				if id := p.Name + "-" + p.Version; have[id] && !contains(twice, id) {
+					twice = append(twice, id)
+				}
+			}
+			how := ""
+			if m.Build {
+				how = " (build_repositories)"
+			}
+			fmt.Fprintf(&b, ", %s%s re-offers %v with other contents", m.Name, how, twice)
+		}
+		b.WriteString("; ")
+	}
+	if c.Base != nil {
+		fmt.Fprintf(&b, "contents.baseimage (%d packages) + lock file; ", len(c.Base.Pkgs))
+	}
+	return b.String()
+}
